@@ -934,8 +934,13 @@ func (s *ProxyServer) processCommand(ctx context.Context, client *ProxyClient, s
 		}
 
 		log.Printf("Created %s publisher %s as %s for %s", cmd.StreamType, publisher.Id(), id, session.PublicId())
-		session.StorePublisher(ctx, id, publisher)
 		s.StoreClient(id, publisher)
+		if !session.StorePublisher(ctx, id, publisher) {
+			log.Printf("Session %s was closed while creating %s publisher %s, closing", session.PublicId(), cmd.StreamType, id)
+			s.DeleteClient(id, publisher)
+			go publisher.Close(context.Background())
+			return
+		}
 
 		response := &signaling.ProxyServerMessage{
 			Id:   message.Id,
@@ -1037,8 +1042,13 @@ func (s *ProxyServer) processCommand(ctx context.Context, client *ProxyClient, s
 			log.Printf("Created %s subscriber %s as %s for %s", cmd.StreamType, subscriber.Id(), id, session.PublicId())
 		}
 
-		session.StoreSubscriber(ctx, id, subscriber)
 		s.StoreClient(id, subscriber)
+		if !session.StoreSubscriber(ctx, id, subscriber) {
+			log.Printf("Session %s was closed while creating %s subscriber %s, closing", session.PublicId(), cmd.StreamType, id)
+			s.DeleteClient(id, subscriber)
+			go subscriber.Close(context.Background())
+			return
+		}
 
 		response := &signaling.ProxyServerMessage{
 			Id:   message.Id,
